@@ -160,52 +160,79 @@ Proof.
 Qed.
 
 (* ------------------------------------------------------------------ frame lemmas of the state update *)
-Lemma set_val_acc_static attr v e a :
-  a_attr (set_val_acc attr v e a) = a_attr a /\
-  a_wire (set_val_acc attr v e a) = a_wire a /\ describe_acc (set_val_acc attr v e a) = describe_acc a.
+Lemma set_val_acc_static attr v e h a :
+  a_attr (set_val_acc attr v e h a) = a_attr a /\
+  a_wire (set_val_acc attr v e h a) = a_wire a /\ describe_acc (set_val_acc attr v e h a) = describe_acc a.
 Proof.
   unfold set_val_acc. destruct (str_eqb attr (a_attr a)); auto. destruct (a_body a) eqn:E; auto.
   repeat split; auto. unfold describe_acc. simpl. rewrite E. auto.
 Qed.
 
-Lemma export_step_set_val attr v e r a : export_step r (set_val_acc attr v e a) = export_step r a.
+Lemma export_step_set_val attr v e h r a : export_step r (set_val_acc attr v e h a) = export_step r a.
 Proof.
-  unfold export_step. destruct (set_val_acc_static attr v e a) as (_ & Hw & Hd). rewrite Hw, Hd. auto.
+  unfold export_step. destruct (set_val_acc_static attr v e h a) as (_ & Hw & Hd). rewrite Hw, Hd. auto.
 Qed.
 
-Lemma export_fold_set_val attr v e accs r :
-  fold_left export_step (map (set_val_acc attr v e) accs) r = fold_left export_step accs r.
+Lemma export_fold_set_val attr v e h accs r :
+  fold_left export_step (map (set_val_acc attr v e h) accs) r = fold_left export_step accs r.
 Proof. revert r. induction accs; intros r; simpl; auto. rewrite export_step_set_val. auto. Qed.
 
-Lemma set_val_mod_static m attr v e md :
-  m_name (set_val_mod m attr v e md) = m_name md /\ m_export (set_val_mod m attr v e md) = m_export md /\
-  describe_mod (set_val_mod m attr v e md) = describe_mod md.
+Lemma set_val_mod_static m attr v e h md :
+  m_name (set_val_mod m attr v e h md) = m_name md /\ m_export (set_val_mod m attr v e h md) = m_export md /\
+  describe_mod (set_val_mod m attr v e h md) = describe_mod md.
 Proof.
   unfold set_val_mod. destruct (str_eqb m (m_name md)); auto. repeat split; auto.
   unfold describe_mod, export_accessibles. simpl. rewrite export_fold_set_val. auto.
 Qed.
 
-Lemma describe_set_val s m attr v e : describe (set_val s m attr v e) = describe s.
+Lemma describe_set_val s m attr v e h : describe (set_val s m attr v e h) = describe s.
 Proof.
   unfold describe, set_val. simpl. induction (s_mods s) as [|md l IH]; simpl; auto.
-  destruct (set_val_mod_static m attr v e md) as (Hn & He & Hd). rewrite He.
+  destruct (set_val_mod_static m attr v e h md) as (Hn & He & Hd). rewrite He.
   destruct (m_export md); simpl; auto. rewrite Hn, Hd, IH. auto.
 Qed.
 
 Lemma describe_subscribe s sp : describe (subscribe s sp) = describe s.
 Proof. auto. Qed.
 
-Lemma describe_step E s o : describe (fst (fst (step E s o))) = describe s.
+(* every operation leaves the state as it is, or updates the dynamic part of one parameter object, or registers a subscription *)
+Inductive frame (s : state) : state -> Prop :=
+| FrSame : frame s s
+| FrSet m attr v e h : frame s (set_val s m attr v e h)
+| FrSub sp : frame s (subscribe s sp)
+| FrActive : frame s {| s_mods := s_mods s; s_active := true; s_subs := s_subs s |}.
+
+Lemma read_hw_frame s m a p hw tok : frame s (fst (fst (read_hw s m a p hw tok))).
 Proof.
-  destruct o; simpl; auto.
-  - unfold do_change. destruct (find_mod s m); auto. destruct (lookup0 m0 w); auto. destruct (a_body a); auto.
-    destruct (p_constant p); auto. destruct (p_readonly p); auto.
-    destruct (wire E (p_dt p) j (p_value p) >>= _); auto. simpl. apply describe_set_val.
-  - unfold do_activate. destruct spec as [[m ow]|]; auto.
-    destruct (find _ (s_mods s)); auto. destruct ow; auto. destruct (lookup0 m0 s0); auto. destruct (a_body a); auto.
-  - unfold do_driver_set. destruct (find_mod s m); auto. destruct (find_attr m0 attr); auto. destruct (a_body a); auto.
-    simpl. apply describe_set_val.
+  unfold read_hw. destruct (dt_call (p_dt p) hw); simpl; [constructor|].
+  destruct (err_is (p_err p) tok); simpl; constructor.
 Qed.
+
+Lemma step_frame E s o : frame s (fst (fst (step E s o))).
+Proof.
+  destruct o; simpl; try constructor.
+  - unfold do_read. destruct (find_mod s m); try constructor. destruct (lookup0 m0 w); try constructor.
+    destruct (a_body a); try constructor. destruct (p_constant p); try constructor. destruct (p_hw p); try constructor.
+    apply read_hw_frame.
+  - unfold do_change. destruct (find_mod s m); try constructor. destruct (lookup0 m0 w); try constructor.
+    destruct (a_body a); try constructor.
+    destruct (p_constant p); try constructor. destruct (p_readonly p); try constructor.
+    destruct (wire E (p_dt p) j (p_value p) >>= _); simpl; constructor.
+  - unfold do_activate. destruct spec as [[m ow]|]; simpl; try constructor.
+    destruct (find _ (s_mods s)); try constructor. destruct ow; simpl; try constructor.
+    destruct (lookup0 m0 s0); try constructor. destruct (a_body a); simpl; constructor.
+  - unfold do_driver_set. destruct (find_mod s m); try constructor. destruct (find_attr m0 attr); try constructor.
+    destruct (a_body a); try constructor. destruct (dt_call (p_dt p) v); simpl; try constructor.
+    destruct (err_is (p_err p) tok); simpl; constructor.
+  - unfold do_hw_set. destruct (find_mod s m); try constructor. destruct (find_attr m0 attr); try constructor.
+    destruct (a_body a); try constructor. destruct (p_hw p); simpl; constructor.
+Qed.
+
+Lemma describe_frame s s' : frame s s' -> describe s' = describe s.
+Proof. destruct 1; auto. apply describe_set_val. Qed.
+
+Lemma describe_step E s o : describe (fst (fst (step E s o))) = describe s.
+Proof. apply describe_frame. apply step_frame. Qed.
 
 Lemma describe_run E ops : forall s, describe (run E s ops) = describe s.
 Proof. induction ops; intros s; simpl; auto. rewrite IHops. apply describe_step. Qed.
@@ -219,37 +246,31 @@ Definition consistent (s : state) : Prop :=
 Lemma Forall_map_iff {A B} (P : B -> Prop) (f : A -> B) (l : list A) : Forall P (map f l) <-> Forall (fun x => P (f x)) l.
 Proof. induction l; simpl; split; intros H; try constructor; inversion H; subst; auto; apply IHl; auto. Qed.
 
-Lemma set_val_mod_consistent m attr v e md : mod_consistent md -> mod_consistent (set_val_mod m attr v e md).
+Lemma set_val_mod_consistent m attr v e h md : mod_consistent md -> mod_consistent (set_val_mod m attr v e h md).
 Proof.
   unfold mod_consistent, set_val_mod. destruct (str_eqb m (m_name md)); auto. simpl. intros H.
   apply Forall_map_iff. eapply Forall_impl; [|exact H]. intros a H1.
-  destruct (set_val_acc_static attr v e a) as (_ & Hw & _). unfold acc_consistent. rewrite Hw. auto.
+  destruct (set_val_acc_static attr v e h a) as (_ & Hw & _). unfold acc_consistent. rewrite Hw. auto.
 Qed.
 
-Lemma set_val_names s m attr v e : map m_name (s_mods (set_val s m attr v e)) = map m_name (s_mods s).
+Lemma set_val_names s m attr v e h : map m_name (s_mods (set_val s m attr v e h)) = map m_name (s_mods s).
 Proof.
   unfold set_val. simpl. rewrite map_map. apply map_ext. intros md.
-  destruct (set_val_mod_static m attr v e md) as (Hn & _). auto.
+  destruct (set_val_mod_static m attr v e h md) as (Hn & _). auto.
 Qed.
 
-Lemma set_val_consistent s m attr v e : consistent s -> consistent (set_val s m attr v e).
+Lemma set_val_consistent s m attr v e h : consistent s -> consistent (set_val s m attr v e h).
 Proof.
   intros [H1 H2]. split.
   - unfold set_val. simpl. apply Forall_map_iff. eapply Forall_impl; [|exact H1]. intros md. apply set_val_mod_consistent.
   - rewrite set_val_names. auto.
 Qed.
 
+Lemma frame_consistent s s' : frame s s' -> consistent s -> consistent s'.
+Proof. destruct 1; auto. apply set_val_consistent. Qed.
+
 Lemma step_consistent E s o : consistent s -> consistent (fst (fst (step E s o))).
-Proof.
-  intros H. destruct o; simpl; auto.
-  - unfold do_change. destruct (find_mod s m); auto. destruct (lookup0 m0 w); auto. destruct (a_body a); auto.
-    destruct (p_constant p); auto. destruct (p_readonly p); auto.
-    destruct (wire E (p_dt p) j (p_value p) >>= _); auto. simpl. apply set_val_consistent; auto.
-  - unfold do_activate. destruct spec as [[m ow]|]; auto.
-    destruct (find _ (s_mods s)); auto. destruct ow; auto. destruct (lookup0 m0 s0); auto. destruct (a_body a); auto.
-  - unfold do_driver_set. destruct (find_mod s m); auto. destruct (find_attr m0 attr); auto. destruct (a_body a); auto.
-    simpl. apply set_val_consistent; auto.
-Qed.
+Proof. apply frame_consistent. apply step_frame. Qed.
 
 Lemma run_consistent E ops : forall s, consistent s -> consistent (run E s ops).
 Proof. induction ops; intros s H; simpl; auto. apply IHops. apply step_consistent; auto. Qed.
@@ -311,10 +332,11 @@ Qed.
 (* ------------------------------------------------------------------ nothing undescribed can be read, changed, executed, subscribed *)
 Definition refused (r : reply) : Prop := r = RpErr RNoMod \/ r = RpErr RNoPar \/ r = RpErr RNoCmd.
 
-Lemma undescribed_read s m w : consistent s -> described s m w = None -> refused (do_read s m w).
+Lemma undescribed_read s m w tok : consistent s -> described s m w = None ->
+  exists r, do_read s m w tok = (s, r, []) /\ refused r.
 Proof.
-  intros HC D. unfold do_read, refused. destruct (find_mod s m) as [md|] eqn:F; auto.
-  rewrite (lookup0_described_none _ _ _ _ HC F D). auto.
+  intros HC D. unfold do_read, refused. destruct (find_mod s m) as [md|] eqn:F; eauto.
+  rewrite (lookup0_described_none _ _ _ _ HC F D). eauto.
 Qed.
 
 Lemma undescribed_change E s m w j : consistent s -> described s m w = None ->
@@ -413,15 +435,54 @@ Proof.
   - rewrite H. simpl. discriminate.
 Qed.
 
-Lemma read_nonconstant s m w g v pd : consistent s -> described s m w = Some (DP g v pd) -> pd_constant pd = None ->
-  exists value, do_read s m w = reply_of (dt_export (pd_dt pd) value >>= fun x => Ok (with_qualifiers x)).
+(* the parameter object a described name stands for *)
+Definition param_at (s : state) (m w : str) : option par :=
+  match find_mod s m with
+  | Some md => match lookup0 md w with
+               | Some a => match a_body a with AP p => Some p | AC _ => None end
+               | None => None
+               end
+  | None => None
+  end.
+
+Definition value_reply (d : dtype) (x : pyval) : reply := reply_of (dt_export d x >>= fun y => Ok (with_qualifiers y)).
+(* what an update carries for a value x / for an error *)
+Definition value_body (d : dtype) (x : pyval) : ubody := match dt_export d x with Ok y => UV y | Err _ => UX end.
+
+Lemma announce_bodies s m a p : Forall (fun u => u_body u = u_body (make_update m None p)) (announce s m a p).
 Proof.
-  intros HC D CO. destruct (described_param _ _ _ _ _ _ HC D) as (md & a & p & F & L & B & Hd & Hr & Hc & _).
-  exists (p_value p). unfold do_read. rewrite F, L, B, Hc, CO, Hd. auto.
+  unfold announce. destruct (a_wire a); auto. destruct (listening s m s0); auto.
 Qed.
 
-Lemma read_constant s m w g v pd c : consistent s -> described s m w = Some (DP g v pd) -> pd_constant pd = Some c ->
-  do_read s m w = RpData (with_qualifiers c).
+(* a read of a described parameter without constant: the cached value, or - when the class has a read method - what the
+   hardware delivered, converted by the DESCRIBED datatype; a value that datatype does not accept is never emitted *)
+Lemma read_nonconstant s m w g v pd tok : consistent s -> described s m w = Some (DP g v pd) -> pd_constant pd = None ->
+  exists p, param_at s m w = Some p /\ p_dt p = pd_dt pd /\
+    match p_hw p with
+    | None => do_read s m w tok = (s, value_reply (pd_dt pd) (p_value p), [])
+    | Some hw =>
+        match dt_call (pd_dt pd) hw with
+        | Ok nv => exists s' us, do_read s m w tok = (s', value_reply (pd_dt pd) nv, us) /\
+                                 Forall (fun u => u_body u = value_body (pd_dt pd) nv) us
+        | Err e => exists s' us, do_read s m w tok = (s', RpErr (RExc e), us) /\ Forall (fun u => u_body u = UE) us
+        end
+    end.
+Proof.
+  intros HC D CO. destruct (described_param _ _ _ _ _ _ HC D) as (md & a & p & F & L & B & Hd & Hr & Hc & _).
+  exists p. unfold param_at, do_read. rewrite F, L, B, Hc, CO. repeat split; auto.
+  destruct (p_hw p) as [hw|] eqn:HW; [|rewrite Hd; auto].
+  unfold read_hw. rewrite Hd. destruct (dt_call (pd_dt pd) hw) as [nv|e].
+  - eexists; eexists; split; [reflexivity|].
+    eapply Forall_impl; [|apply announce_bodies]. intros u Hu. rewrite Hu. unfold make_update, value_body. simpl.
+    rewrite Hd. auto.
+  - destruct (err_is (p_err p) tok).
+    + eexists; eexists; split; [reflexivity|]. constructor.
+    + eexists; eexists; split; [reflexivity|].
+      eapply Forall_impl; [|apply announce_bodies]. intros u Hu. rewrite Hu. auto.
+Qed.
+
+Lemma read_constant s m w g v pd c tok : consistent s -> described s m w = Some (DP g v pd) -> pd_constant pd = Some c ->
+  do_read s m w tok = (s, RpData (with_qualifiers c), []).
 Proof.
   intros HC D CO. destruct (described_param _ _ _ _ _ _ HC D) as (md & a & p & F & L & B & Hd & Hr & Hc & _).
   unfold do_read. rewrite F, L, B, Hc, CO. auto.
